@@ -20,10 +20,15 @@ META = {
         "quick": {"evaluations": 6000, "distinct_nontrivial": 1500, "tables": {"mode": 5000, "outcome/some-kept-some-discarded": 1200, "outcome/whole-charge-removed": 300, "outcome/everything-discarded": 100, "ladder": 400, "absorb": 1500, "nocutoff": 500, "feature/four-or-more-charges": 300}},
         "thorough": {"evaluations": 200000, "distinct_nontrivial": 40000, "tables": {"outcome/everything-discarded": 3000}},
     },
-    "wall": {"quick": 100, "thorough": 1500},
+    "wall": {"quick": 300, "thorough": 1500},
 }
 
 BAND = 1e-9
+# When the decision spectrum is the library's OWN untruncated svd of the same input (checked
+# against the independent numpy spectrum first; C12 judges that equality), svd_truncated works
+# on bit-identical values and only the order of a few additions can differ: the band shrinks.
+BAND_TIGHT = 2e-14
+_band = [BAND]
 
 
 def spectrum(x):
@@ -47,18 +52,18 @@ def expected_counts(spec, cutoff, mode, max_bond):
             p = 2 if mode in (3, 4) else 1
             cum = np.cumsum(alls**p)
             T = cutoff * cum[-1] if mode in (4, 6) else cutoff
-            if np.any(np.abs(cum - T) <= BAND * max(abs(T), 1e-300)):
+            if np.any(np.abs(cum - T) <= _band[0] * max(abs(T), 1e-300)):
                 near = True
             nkeep = int(np.count_nonzero(cum >= T))
             thr = alls[-nkeep] if nkeep > 0 else np.inf
-        if mode in (1, 2) and np.any(np.abs(alls - thr) <= BAND * max(thr, 1e-300)):
+        if mode in (1, 2) and np.any(np.abs(alls - thr) <= _band[0] * max(thr, 1e-300)):
             near = True  # a value sits on the cutoff itself
         if 0 < max_bond < N:
             thr = max(thr, alls[-max_bond])
         if np.isfinite(thr):
             # thr may now BE one of the values (rank threshold): only OTHER values within the band matter
             d = np.abs(alls - thr)
-            close = d <= BAND * max(thr, 1e-300)
+            close = d <= _band[0] * max(thr, 1e-300)
             exact = alls == thr
             if np.any(close & ~exact):
                 near = True
@@ -246,6 +251,16 @@ def case(ctx, rng):
             x.blocks[s_] = x.blocks[s_] * f
         feats = set(feats) | {"rescaled-data"}
     spec = spectrum(x)
+    _band[0] = BAND
+    ol = ctx.call(lambda: ctx.sr.linalg.svd(x))
+    if ol.ok:
+        ls = {c: np.asarray(v) for c, v in ol.value[1].blocks.items()}
+        if set(ls) == set(spec) and all(ls[c].shape == spec[c].shape and np.allclose(ls[c], spec[c], rtol=1e-9, atol=1e-9 * float(max(v_[0] for v_ in spec.values()))) for c in spec):
+            spec = ls
+            _band[0] = BAND_TIGHT
+            ctx.count("spectrum", "library-svd-values (tight band)")
+        else:
+            ctx.count("spectrum", "independent-numpy-values (wide band)")
     alls = np.sort(np.concatenate(list(spec.values())))
     N = len(alls)
     if N < 2:
